@@ -507,7 +507,12 @@ Fixpoint slice_panics (cls : cnf) : bool :=
 Definition parse_wcnf_state (s : bytes) : pres wstate :=
   let (ls, _) := scan_lines s in
   match wcnf_lines ls wstate0 with
-  | POk st => if slice_panics (w_goclauses st) then PPanic else POk st
+  | POk st =>
+    (* parser.go:100  make([]solver.Lit, relaxLit-nbVars-1): negative when the
+       text has no "p" line and no soft clause *)
+    if w_relax st - w_nbvars st - 1 <? 0 then PPanic
+    else if slice_panics (w_goclauses st) then PPanic     (* parser.go:104 ParseSlice *)
+    else POk st
   | e => e
   end.
 
